@@ -109,3 +109,18 @@ Proof.
     pose proof (forallb_snd_aget _ _ _ Ea Hv) as ->.
     eapply validate_order_booked; [exact E | exact Hu | exact Ho | cbn; discriminate | exact Ea].
 Qed.
+
+(* a parameter update that validation accepts is a good update for the books (Books.good_subs) as soon as it stays outside the two
+   known-finding shapes (sources in order: not K1; destinations plain and among the known accounts: not K2 / key discipline) *)
+Theorem validated_update_is_good (Known : dacct -> Prop) l :
+  dparams_valid l = true ->
+  Forall (fun s => sd_uids_ok (ps_sd s)) l ->
+  Forall (fun s => sources_in_order (sd_sources (ps_sd s))) l ->
+  Forall (dests_shaped plainR) (map ps_sd l) -> Forall (dests_in Known) (map ps_sd l) ->
+  good_subs Known (map ps_sd l).
+Proof.
+  intros Hv Hu Ho Hsh Hin. destruct (valid_config_books l Hv Hu Ho) as [Hs Hb].
+  split; [|split; [exact Hin|exact Hb]]. split; [|exact Hsh].
+  rewrite Forall_forall in *. intros sd Hsd. split; [|apply Hs; exact Hsd].
+  apply in_map_iff in Hsd as (s & <- & Hs'). apply Ho. exact Hs'.
+Qed.
